@@ -156,6 +156,80 @@ pub fn one(out: &mut Out, line: &str) {
     crate::c01::one_with(out, line, oracle)
 }
 
+/// The record as jet1090 writes it: with reception metadata, and — under `--stats`, which calls
+/// `serialize_config(true)` once per process — with the decoding time.  Oracle only (the model of the timed
+/// record has neither): the line parses, no key twice, every field of the message is kept, `decode_time` is
+/// shown exactly when the configuration says so.  The configuration is process-wide and write-once, so the
+/// pass with it set comes last.
+fn stats_mode(out: &mut Out, rng: &mut Rng, thorough: bool) {
+    let mut frames: Vec<Vec<u8>> = vec![];
+    for df in [0u8, 4, 5, 11, 16, 17, 18, 19, 20, 21, 24] {
+        let tcs: Vec<Option<u8>> = if df == 17 || df == 18 { (0..32).map(Some).collect() } else { vec![None; 8] };
+        for tc in tcs {
+            for _ in 0..(if thorough { 8 } else { 2 }) {
+                frames.push(frame(rng, df, tc));
+            }
+        }
+    }
+    let record = |f: &[u8], m: &Message, k: usize| TimedMessage {
+        timestamp: 1_700_000_000.25 + k as f64,
+        frame: f.to_vec(),
+        message: Some(m.clone()),
+        metadata: (0..k % 3)
+            .map(|i| SensorMetadata {
+                system_timestamp: 1_700_000_000.5,
+                gnss_timestamp: if i == 0 { Some(12.5) } else { None },
+                nanoseconds: if i == 1 { Some(123_456_789) } else { None },
+                rssi: if i == 0 { Some(-12.5) } else { None },
+                serial: 42 + i as u64,
+                name: if i == 0 { Some("rx\"1".to_string()) } else { None },
+            })
+            .collect(),
+        decode_time: if k % 4 == 3 { None } else { Some(0.000125) },
+    };
+    for configured in [false, true] {
+        if configured {
+            static ONCE: std::sync::Once = std::sync::Once::new();
+            ONCE.call_once(|| rs1090::decode::serialize_config(true));
+        }
+        for (k, f) in frames.iter().enumerate() {
+            let Some(Ok(m)) = guarded(|| Message::try_from(f.as_slice())) else { continue };
+            let Some(Ok(mj)) = guarded(|| serde_json::to_string(&m)) else { continue }; // judged by `dec`
+            let tm = record(f, &m, k);
+            let op = format!("stats {} {}", if configured { 1 } else { 0 }, hex(f));
+            match guarded(|| serde_json::to_string(&tm)) {
+                None => out.fail("ser-panic", &op, "TimedMessage serialisation panicked"),
+                Some(Err(e)) => out.fail("not-serialisable", &op, &format!("TimedMessage: {e}")),
+                Some(Ok(tj)) => match (serde_json::from_str::<serde_json::Value>(&tj), serde_json::from_str::<serde_json::Value>(&mj)) {
+                    (Ok(tv), Ok(v)) => {
+                        if tj.contains('\n') {
+                            out.fail("not-one-line", &op, "TimedMessage: line break in the record");
+                        }
+                        if let Err(key) = dup_key(&tj) {
+                            out.fail("duplicate-key", &op, &format!("TimedMessage: key {key} twice"));
+                        }
+                        let want = if configured { tm.decode_time } else { None };
+                        if tv.get("decode_time").and_then(|x| x.as_f64()) != want {
+                            out.fail("decode-time-shown", &op, &format!("decode_time shown as {:?}, want {want:?}", tv.get("decode_time")));
+                        }
+                        if tv.get("metadata").and_then(|x| x.as_array()).map(|a| a.len()) != Some(tm.metadata.len()) {
+                            out.fail("timed-record-differs", &op, "metadata");
+                        }
+                        if let (Some(o), Some(t)) = (v.as_object(), tv.as_object()) {
+                            if let Some((key, _)) = o.iter().find(|(key, val)| t.get(*key) != Some(val)) {
+                                out.fail("timed-record-differs", &op, &format!("key {key}"));
+                            }
+                        }
+                        out.stat(if configured { "stats-mode:configured" } else { "stats-mode:default" });
+                    }
+                    _ => out.fail("json-does-not-parse", &op, "TimedMessage"),
+                },
+            }
+        }
+    }
+}
+
 pub fn run(out: &mut Out, rng: &mut Rng, thorough: bool) {
-    crate::c01::run_with(out, rng, thorough, oracle)
+    crate::c01::run_with(out, rng, thorough, oracle);
+    stats_mode(out, rng, thorough);
 }
